@@ -3,7 +3,8 @@
 Partial (DESIGN.md C17).  Proved on the model (Properties_C17.v): a render only
 appends; any sequence of renders through one tag tree with different values and
 pre-filled streams equals the concatenation of fresh renders, each being the
-documented expansion.  Tied to the code and extended to what the model cannot
+documented expansion; N threads sharing text and tag list under any schedule
+(one top-level tag per step) each end with their own fresh render (TmplThreads.v).  Tied to the code and extended to what the model cannot
 exhibit (the value / text / cache are not modified; data races) by running,
 per generated template: fresh render vs. a cache reused three times (other
 value, pre-filled stream) with value and text compared before/after (ASan
@@ -103,7 +104,7 @@ def check(tier):
         "discharged": len(theorems) if st["ok"] else 0,
         "checker_cmd": "cd coq && make Properties_C17.vo (coqc 8.16.1) ; coqc -Q . Qv Properties_C17.v for Print Assumptions",
         "trusted_base": vlib.TRUSTED_BASE_COMMON + [
-            "partial: purity is proved for the Gallina renderer (by construction a function of text, tag tree and value); non-modification of the C++ value/text/cache and data-race freedom are TESTED (ASan build with before/after comparison; ThreadSanitizer with %d threads), schedules are whatever the runs see" % nthreads],
+            "partial: purity and schedule-independence (tag granularity) are proved for the Gallina renderer (by construction a function of text, tag tree and value: a step cannot write the shared part); non-modification of the C++ value/text/cache and data-race freedom are TESTED (ASan build with before/after comparison; ThreadSanitizer with %d threads), schedules are whatever the runs see" % nthreads],
         "theorems": [{"name": a, "assumptions": b} for a, b in theorems],
         "evaluations": len(cases) + len(tcases),
         "distinct_nontrivial": len({c.a + "#" + c.v for c in cases if c02.nontrivial(c)}),
